@@ -18,7 +18,7 @@ RULE = ("Hypothesis: general graphs x {all_classes_mode, target_classes (possibl
         "duplicate key, shape set.  Non-trivial: >=1 key exactly at the boundary (n/N == t) or a shape with >=1 key dropped and "
         ">=1 kept; distinct by SHA-1 of the case.")
 ASSUMPTIONS = c01.ASSUMPTIONS
-BUDGET = {"quick": {"examples": 16000, "wall": 120}, "thorough": {"examples": 160000, "wall": 3000}}
+BUDGET = {"quick": {"examples": 16000, "wall": 120}, "thorough": {"examples": 500000, "wall": 5400}}
 FLOORS = {"nontrivial": 0.15, "boundary-key": 0.08, "inverse": 0.06}
 OWN = ("KEY_MISSING", "KEY_EXTRA", "KEY_DUP", "SHAPE_UNEXPECTED", "SHAPE_MISSING", "LABEL_DUP")
 KNOWN = ("C02-MIXEDKIND", "C02-GONEREF")
